@@ -84,6 +84,15 @@ CHECKS.update({
    note=NET_NOTE, technique="TLA+ model checking (TLC) + trace validation of real ARP executions with injected frame loss"),
 })
 
+CHECKS.update({
+ "C13": dict(level="model_checking", ref="DESIGN.md 7 C13",
+   text="Lifecycle.tla: protocols as init/arrive/release/post processes behind a barrier, shutdown requests through the bounded broadcast channel (first request wins), the timeout "
+        "task and the outer T+1 timeout, all interleavings (barrier, returned status = first request, bound, no hang); real run_internet_with_timeout runs mixing scripted "
+        "applications (slow, early/late/concurrent/bursting requests, hanging) with built-in protocols and applications under virtual time, validated by TraceLifecycle.tla.",
+   note=NET_NOTE + " Known finding K6 (Forward opens its session before the barrier) is reported as KNOWN-FINDING.",
+   technique="TLA+ model checking (TLC) + trace validation of real simulation runs under virtual time"),
+})
+
 NOT_APPLICABLE = {}
 PENDING = ["C02", "C04", "C05", "C06", "C07", "C08", "C09", "C10", "C11", "C13", "C14", "C15", "C16", "C18", "C19", "C20"]
 
